@@ -48,7 +48,57 @@ func (vc *VC) resolveTypeAt(env *Env, file, text string) types.Type {
 	if t := vc.typeInDirOf(file, text); t != nil {
 		return t
 	}
-	return vc.resolveType(env, text)
+	if t := vc.resolveType(env, text); t != nil {
+		return t
+	}
+	return vc.typeInAnyPackage(text)
+}
+
+// typeInAnyPackage resolves "*pkg.Name", "[]pkg.Name" or "pkg.Name" against
+// every package of the program by package name (for types of packages that no
+// file of the contract's own package imports, e.g. a dependency's type reached
+// through a struct field). Ambiguous names resolve to nil.
+func (vc *VC) typeInAnyPackage(text string) types.Type {
+	wrap := []string{}
+	for {
+		if strings.HasPrefix(text, "*") {
+			wrap = append(wrap, "*")
+			text = text[1:]
+		} else if strings.HasPrefix(text, "[]") {
+			wrap = append(wrap, "[]")
+			text = text[2:]
+		} else {
+			break
+		}
+	}
+	i := strings.LastIndex(text, ".")
+	if i <= 0 {
+		return nil
+	}
+	pn, tn := text[:i], text[i+1:]
+	var found types.Type
+	for _, p := range vc.Eng.Prog.AllPackages() {
+		if p.Pkg == nil || (p.Pkg.Name() != pn && p.Pkg.Path() != pn) {
+			continue
+		}
+		if o, ok := p.Pkg.Scope().Lookup(tn).(*types.TypeName); ok {
+			if found != nil && !types.Identical(found, o.Type()) {
+				return nil
+			}
+			found = o.Type()
+		}
+	}
+	if found == nil {
+		return nil
+	}
+	for k := len(wrap) - 1; k >= 0; k-- {
+		if wrap[k] == "*" {
+			found = types.NewPointer(found)
+		} else {
+			found = types.NewSlice(found)
+		}
+	}
+	return found
 }
 
 // typeInDirOf resolves a type expression in the package whose directory holds
